@@ -9,7 +9,7 @@ WT="$1"; NAME="$2"; shift 2
 OUT=/verif/seeded/$NAME
 mkdir -p "$OUT"
 cd "$WT" || exit 2
-DEMO_CMD=$(python3 -c "import json;print(json.load(open('SEED/meta.json')).get('demo_cmd','cargo test --offline --test seed_demo'))")
+DEMO_CMD=$(python3 -c "import json,re;print(re.split(r'\s+\(|;|&&', json.load(open('SEED/meta.json')).get('demo_cmd','cargo test --offline --test seed_demo'))[0].strip())")
 case "$DEMO_CMD" in *--offline*) ;; *) DEMO_CMD="$DEMO_CMD --offline";; esac
 echo "demo_cmd: $DEMO_CMD"
 # with the change
